@@ -336,3 +336,174 @@ Example C08_join_sides_nonvacuous :
   = JOk ([None; None; Some 0%N], [Some 0%N; None; Some 0%N]).
 Proof. vm_compute. split; reflexivity. Qed.
 Print Assumptions C08_join_sides_nonvacuous.
+
+(* ================================================================== variable level: aN vs a[N] (VarSpelling.v) *)
+From RBQL Require Import Value Like Expr VarSpelling VarSpelling_Proofs.
+
+(* The two scanners of parse_basic_variables / parse_array_variables (ParserVars.v: basic_body, array_body under ctx_start and the
+   left-to-right non-overlapping find_all; the same regexes in rbql_engine.py and rbql.js) build [numbered_vars q p], the variable
+   map of the numbered variables of the table with prefix p (97 = a, 98 = b) for the query text q.  The init code
+   "<key> = safe_get(record, <index>)" of generate_init_statements is read as a binding environment: a plain name binds a local
+   variable, a[N] assigns the key N of the record object (Python: the int N; rbql-js: the property named N); a token of the
+   expression text is read back through the same classification ([lookup fl p map token] = the 0-based field index it reads).
+   [occurs_name q p N]: q = pre ++ "pN" ++ post with N written in decimal without leading zero (dec_of_N), nothing or a
+   character outside [_a-zA-Z0-9] directly before, and the end of the text or such a character directly after.
+   [occurs_index q p N]: q = pre ++ "p[N]" ++ post with nothing, or a character outside [_a-zA-Z0-9] other than "]", directly before.
+   What the code guarantees about string literals: NOTHING - both scanners get the whole cleaned query text, literal
+   contents included (Example C08_var_what_the_code_guarantees), so "occurs" is about the text, inside or outside literals; a
+   token inside a literal only adds an unused variable.
+   C08_var_index: for EVERY query text and every N >= 1, a token aN at a token boundary is bound to field N-1 and a token a[N] is
+   bound to field N-1 (both prefixes, both flavours; N is an unbounded natural number). *)
+Theorem C08_var_index : forall (fl : lang) (q : str) (p : ch) (n : N), p = 97 \/ p = 98 -> 1 <= n ->
+  (occurs_name q p n -> lookup fl p (numbered_vars q p) (name_tok p n) = Some (n - 1)) /\
+  (occurs_index q p n -> lookup fl p (numbered_vars q p) (index_tok p n) = Some (n - 1)).
+Proof. exact var_index. Qed.
+Print Assumptions C08_var_index.
+
+(* rbql-js reads the digits with parseInt and prints them back with String(): the model of its map answers only while every
+   number read is below 2^53 ([numbered_vars_fl LJs] = None otherwise; see C08_var_digits: a9007199254740993 is outside) *)
+Theorem C08_var_index_flavour : forall (fl : lang) (q : str) (p : ch) (n : N) (m : vmap), p = 97 \/ p = 98 -> 1 <= n ->
+  numbered_vars_fl fl q p = Some m ->
+  (occurs_name q p n -> lookup fl p m (name_tok p n) = Some (n - 1)) /\
+  (occurs_index q p n -> lookup fl p m (index_tok p n) = Some (n - 1)).
+Proof. exact var_index_fl. Qed.
+Print Assumptions C08_var_index_flavour.
+
+(* the converse: the map holds ONLY what occurs.  A key aN is in the map only with index N-1 and only if the token aN stands at a
+   token boundary of the text; a key a[N] only if a[N] stands after the start or a non-word character.  Hence aa1, a1b, _a1, a1_
+   do not make a1 a variable, and a01 / a0 make nothing a variable (C08_var_digits). *)
+Theorem C08_var_only_if_occurs : forall (q : str) (p : ch) (n : N) (v : vinfo), p = 97 \/ p = 98 ->
+  (map_get (name_tok p n) (numbered_vars q p) = Some v -> v = (true, n - 1) /\ 1 <= n /\ occurs_name q p n) /\
+  (map_get (index_tok p n) (numbered_vars q p) = Some v ->
+     v = (true, n - 1) /\ 1 <= n /\ exists pre post, q = pre ++ index_tok p n ++ post /\ bound_before pre).
+Proof. intros q p n v Hp. split; [exact (name_only_if_occurs q p n v Hp) | exact (index_only_if_occurs q p n v Hp)]. Qed.
+Print Assumptions C08_var_only_if_occurs.
+
+(* C08_aN_bracket_equiv.  [render_fld sp t i] is what the renderer writes for the node EFld t i (aN or a[N] with N = i+1; harness/qmodel.py
+   Renderer.fld chooses at random); [field_expr fl t map token] is the node the token stands for on the model's parser side.
+   Both spellings, each in a text where it occurs, come back as the SAME node EFld t i; so any expression K[.] around the
+   designated occurrence evaluates alike under both spellings, for every record; the value is the field, None when the record
+   is short (safe_get). *)
+Theorem C08_aN_bracket_equiv : forall (fl : lang) (efl : flavour) (t : tbl) (i : nat) (q1 q2 : str),
+  occurs_name q1 (tbl_ch t) (N.of_nat (S i)) -> occurs_index q2 (tbl_ch t) (N.of_nat (S i)) ->
+  field_expr fl t (numbered_vars q1 (tbl_ch t)) (render_fld SpName t i) = Some (EFld t i) /\
+  field_expr fl t (numbered_vars q2 (tbl_ch t)) (render_fld SpIndex t i) = Some (EFld t i) /\
+  (forall (K : expr -> expr) (en : env) e1 e2,
+     field_expr fl t (numbered_vars q1 (tbl_ch t)) (render_fld SpName t i) = Some e1 ->
+     field_expr fl t (numbered_vars q2 (tbl_ch t)) (render_fld SpIndex t i) = Some e2 ->
+     eval efl en (K e1) = eval efl en (K e2)) /\
+  (forall en, eval efl en (EFld t i) = Expr.Ok (VA (field_value en t i))) /\
+  (forall en, (length (e_a en) <= i)%nat -> eval efl en (EFld TA i) = Expr.Ok (VA ANone)).
+Proof. exact aN_bracket_equiv. Qed.
+Print Assumptions C08_aN_bracket_equiv.
+
+(* respelling ONE occurrence in place, the text around it unchanged (before: start of text or a non-word character other than "]";
+   after: end of text or a non-word character) *)
+Theorem C08_respell_in_place : forall (fl : lang) (t : tbl) (i : nat) (pre post : str),
+  bound_before_index pre -> bound_after post ->
+  let q1 := pre ++ render_fld SpName t i ++ post in
+  let q2 := pre ++ render_fld SpIndex t i ++ post in
+  field_expr fl t (numbered_vars q1 (tbl_ch t)) (render_fld SpName t i) = Some (EFld t i) /\
+  field_expr fl t (numbered_vars q2 (tbl_ch t)) (render_fld SpIndex t i) = Some (EFld t i).
+Proof. exact respell_in_place. Qed.
+Print Assumptions C08_respell_in_place.
+
+Example C08_var_index_nonvacuous :
+  let q := $"select a2, (a[3]), b1 where a[3] != 'x'" in
+  occurs_name q 97 2 /\ occurs_index q 97 3 /\ occurs_name q 98 1 /\
+  lookup LPy 97 (numbered_vars q 97) ($"a2") = Some 1 /\ lookup LJs 97 (numbered_vars q 97) ($"a[3]") = Some 2 /\
+  field_expr LPy TB (numbered_vars q 98) ($"b1") = Some (EFld TB 0).
+Proof. exact var_index_nonvacuous. Qed.
+Print Assumptions C08_var_index_nonvacuous.
+
+(* the extra condition of occurs_index (not directly after "]") cannot be dropped: the boundary character is consumed by the match *)
+Example C08_var_index_boundary_needed :
+  let q := $"a[1]a[2]" in
+  (exists pre post, q = pre ++ index_tok 97 2 ++ post /\ bound_before pre) /\
+  map_get (index_tok 97 2) (numbered_vars q 97) = None /\ lookup LPy 97 (numbered_vars q 97) (index_tok 97 2) = None.
+Proof. exact index_boundary_needed. Qed.
+Print Assumptions C08_var_index_boundary_needed.
+
+(* C08_var_digits: a numeral that starts with 0 is never matched, at the start of the text or after any non-word character,
+   whatever follows: a0, a01, a[0], a[01] are not field variables (cf. C18_header_a0_refuted) ... *)
+Theorem C08_var_leading_zero : forall (p : ch) (prev : option ch) (r : str), p = 97 \/ p = 98 ->
+  ctx_start (basic_body p) prev (p :: 48 :: r) = None /\
+  ctx_start (array_body p) prev (p :: LBR :: 48 :: r) = None /\
+  (forall c, is_word c = false ->
+     ctx_start (basic_body p) prev (c :: p :: 48 :: r) = None /\ ctx_start (array_body p) prev (c :: p :: LBR :: 48 :: r) = None).
+Proof. exact leading_zero_never. Qed.
+Print Assumptions C08_var_leading_zero.
+
+(* ... N is read as a decimal number, a 30-digit N is fine in Python, and rbql-js is exact below 2^53 only *)
+Example C08_var_digits :
+  numbered_vars ($"select a01, a0, a[0], a[01], a00012, a010") 97 = [] /\
+  numbered_vars ($"select a10, a[12]") 97 = [($"a10", (true, 9)); ($"a[12]", (true, 11))] /\
+  lookup LPy 97 (numbered_vars ($"select a123456789012345678901234567890") 97) ($"a123456789012345678901234567890")
+    = Some 123456789012345678901234567889 /\
+  numbered_vars_fl LJs ($"select a9007199254740993") 97 = None /\
+  (exists m, numbered_vars_fl LJs ($"select a9007199254740991") 97 = Some m /\ lookup LJs 97 m ($"a9007199254740991") = Some 9007199254740990).
+Proof. exact digit_examples. Qed.
+Print Assumptions C08_var_digits.
+
+(* C08_var_boundaries: aa1, a1b, _a1, a1_, xa[1], a1a2, 1a1 are not the variable a1;  -a1, (a1), "a1," and x[a[1]] are *)
+Example C08_var_boundaries :
+  numbered_vars ($"select aa1 + a1b + _a1 + a1_ + xa[1] + a1a2 + 1a1 + a_1") 97 = [] /\
+  numbered_vars ($"-a1") 97 = [($"a1", (true, 0))] /\
+  numbered_vars ($"(a1)") 97 = [($"a1", (true, 0))] /\
+  numbered_vars ($"a1,") 97 = [($"a1", (true, 0))] /\
+  numbered_vars ($"x[a[1]]") 97 = [($"a[1]", (true, 0))] /\
+  numbered_vars ($"a1b2") 98 = [] /\ numbered_vars ($"a1.b2") 98 = [($"b2", (true, 1))].
+Proof. exact boundary_examples. Qed.
+Print Assumptions C08_var_boundaries.
+
+Example C08_var_what_the_code_guarantees :
+  numbered_vars ($"select a[ 1 ], a [2]") 97 = [] /\
+  numbered_vars ($"select 'a5', ""x a[7]""") 97 = [($"a5", (true, 4)); ($"a[7]", (true, 6))].
+Proof. exact what_the_code_guarantees. Qed.
+Print Assumptions C08_var_what_the_code_guarantees.
+
+(* C08_record_number_spellings.  [nr_lookup fl fmt jm name]: what the record-number name denotes given the format expression fmt
+   (literals replaced by placeholders) and the join map jm (None: no JOIN).  NR is the loop variable; aNR / a.NR are assigned from it
+   whenever the text contains them; bNR is the loop variable of a JOIN query; b.NR is assigned from it when the text contains it
+   AND the join table's init code is emitted (always in rbql-js; in rbql-py only when the join map is not empty).  All spellings that
+   are bound denote the same node (ENR / EBNR) and value.  Restriction: tables WITHOUT column names - with a header a.NR / b.NR are
+   attribute variables (ParserVars.parse_attribute_variables: a column called NR, or "Unable to find column"). *)
+Theorem C08_record_number_spellings : forall (fl : lang) (efl : flavour) (fmt : str) (jm : option vmap),
+  nr_lookup fl fmt jm S_NR = Some NRA /\
+  (occurs_text fmt S_aNR -> nr_lookup fl fmt jm S_aNR = Some NRA) /\
+  (occurs_text fmt S_adotNR -> nr_lookup fl fmt jm S_adotNR = Some NRA) /\
+  (jm <> None -> nr_lookup fl fmt jm S_bNR = Some NRB) /\
+  (occurs_text fmt S_bdotNR -> join_init_emitted fl jm = true -> nr_lookup fl fmt jm S_bdotNR = Some NRB) /\
+  (forall v, jm = Some v -> v <> [] \/ fl = LJs -> join_init_emitted fl jm = true) /\
+  (forall x y a b, nr_lookup fl fmt jm x = Some a -> nr_lookup fl fmt jm y = Some b ->
+     (In x [S_NR; S_aNR; S_adotNR] /\ In y [S_NR; S_aNR; S_adotNR]) \/ (In x [S_bNR; S_bdotNR] /\ In y [S_bNR; S_bdotNR]) ->
+     a = b /\ forall en, eval efl en (nr_expr a) = eval efl en (nr_expr b)).
+Proof. exact record_number_spellings. Qed.
+Print Assumptions C08_record_number_spellings.
+
+(* nr_lookup and the text of the init code (ParserVars.common_init / init_lines, compared with generate_init_statements by C09's run) agree *)
+Theorem C08_record_number_lines : forall (fl : lang) (fmt : str) (m : vmap) (jm : option vmap),
+  (nr_lookup fl fmt jm S_aNR = Some NRA <-> In S_aNR_eq_NR (common_init fmt 97)) /\
+  (nr_lookup fl fmt jm S_adotNR = Some NRA <-> In (97 :: S_dotNR_eq ++ S_NR) (common_init fmt 97)) /\
+  (nr_lookup LPy fmt jm S_bdotNR = Some NRB <-> In (98 :: S_dotNR_eq ++ S_bNR) (init_lines fmt m jm)).
+Proof. exact nr_lookup_lines. Qed.
+Print Assumptions C08_record_number_lines.
+
+(* REFUTED in rbql-py (the faithful model; reproduced against the code, notes/vars08.md F3): in a JOIN query that names no FIELD of the join
+   table the join map is empty, "if join_variables_map:" is false, no  b = RBQLRecord()  /  b.NR = bNR  line is emitted: b.NR fails where bNR works *)
+Example C08_record_number_bdotNR_refuted :
+  let fmt := $"select a1, b.NR join B on NR == b.NR" in
+  nr_lookup LPy fmt (Some []) S_bNR = Some NRB /\ nr_lookup LPy fmt (Some []) S_bdotNR = None /\
+  nr_lookup LJs fmt (Some []) S_bdotNR = Some NRB /\ nr_lookup LPy fmt (Some [($"b1", (true, 0))]) S_bdotNR = Some NRB.
+Proof. exact py_bdotNR_refuted. Qed.
+Print Assumptions C08_record_number_bdotNR_refuted.
+
+(* REFUTED in rbql-js once the table has a header with a column NAMED like the number (notes/vars08.md F1): over the header c, d, 1 the map of
+   select a[1]  is  a[1] -> 0, a["1"] -> 2; both init lines assign the same property, the later wins: a[1] reads field 2, a1 reads field 0.
+   No clash in Python (int key 1 vs str key "1").  C08_var_index is about the numbered variables alone (tables without column names). *)
+Example C08_var_index_js_numeric_column_refuted :
+  let m := [($"a1", (true, 0)); ($"a[1]", (true, 0)); ($"a[""1""]", (true, 2)); ($"a['1']", (false, 2))] in
+  lookup LJs 97 m ($"a1") = Some 0 /\ lookup LJs 97 m ($"a[1]") = Some 2 /\
+  lookup LPy 97 m ($"a1") = Some 0 /\ lookup LPy 97 m ($"a[1]") = Some 0 /\ lookup LPy 97 m ($"a[""1""]") = Some 2 /\ lookup LPy 97 m ($"a['1']") = Some 2.
+Proof. exact js_numeric_column_refuted. Qed.
+Print Assumptions C08_var_index_js_numeric_column_refuted.
